@@ -24,7 +24,7 @@ def ref_encode_native(fmt, t, v, fam, ns):
         return [ref_encode_native(fmt, t.args[0], x, fam, ns) for x in v]
     if k == "tuplefix":
         return [ref_encode_native(fmt, a, x, fam, ns) for a, x in zip(t.args, v)]
-    if k in ("dict", "mapping", "ordereddict"):
+    if k in ("dict", "mapping", "ordereddict", "mappingproxy"):
         return {ref_encode_native(fmt, t.args[0], a, fam, ns): ref_encode_native(fmt, t.args[1], b, fam, ns) for a, b in v.items()}
     if k == "opt":
         return None if v is None else ref_encode_native(fmt, t.args[0], v, fam, ns)
@@ -68,6 +68,10 @@ def run(ctx: vlib.Ctx):
                             "typed dicts, all leaf kinds, enums, collections, Optional, wire-disjoint unions, literals) x edge-biased conforming values; "
                             "distinct = (type tree, value) pairs; non-trivial = value contains at least one non-identity conversion or container")
     ctx.theorems("props/C02_pack.vo", ["C02_pack_ref", "C02_field_packer", "C02_basic"])
+    ctx.theorems("props/C02_collection_kernel.vo", ["C02_seq_decision_is_code", "C02_map_decision_is_code",
+                                                    "C02_conversion_never_skipped", "C02_byref_iff_listed_identity"], kernels=["K15"])
+    ctx.trusted += ["tools/kernels/k15_collection_exprs.py (translator of _make_sequence_expression/_make_mapping_expression; "
+                    "recognised tests and returned templates are listed explicitly, anything else fails closed)"]
     ctx.trusted += ["TyModel.v (cp/pk: hand-written model of pack.py registry order, copy-vs-comprehension and could_be_none decisions) "
                     "tied by vm_compute correspondence; stdlib renderings (isoformat, str, total_seconds, encodebytes, Enum.value) are oracle tables"]
     ctx.assumptions += ["format dialect part (orjson/msgpack/TOML native types, TOML null dropping) and NamedTuple/TypedDict/ChainMap/Counter/unions/literals "
@@ -97,7 +101,7 @@ def run(ctx: vlib.Ctx):
             what = None
             try:
                 got = enc.encode(v)
-                if not gen.same(got, exp):
+                if not gen.same_ordered(got, exp):
                     what = f"encode differs from the reference: {gen.py_src(got)[:200]} vs {gen.py_src(exp)[:200]}"
                 elif no_any and not gen.is_basic(got):
                     what = "result is not made of str/int/float/bool/None/list/dict"
@@ -112,7 +116,7 @@ def run(ctx: vlib.Ctx):
                 obs = f"exc:{type(e).__name__}"
             if what is None and t.kind == "data" and fam.get(t.name).mixin:
                 got2 = v.to_dict()
-                if not gen.same(got2, exp):
+                if not gen.same_ordered(got2, exp):
                     what = f"to_dict differs from the reference: {gen.py_src(got2)[:200]}"
                     obs = "ok:" + gen.py_src(got2)
             if what:
@@ -137,7 +141,7 @@ def run(ctx: vlib.Ctx):
                 exp = ref_encode_native(fmt, t, v, fam, ns)
                 try:
                     got = enc.encode(v)
-                    ok = gen.same(got, exp)
+                    ok = gen.same_ordered(got, exp)
                     obs = "ok:" + gen.py_src(got)
                 except Exception as e:
                     ok = False
